@@ -32,8 +32,8 @@ ASSUMPTIONS = ["contractive / convex problem families (|s|<=0.5, |W|~0.5) so eve
                "tolerances: 1e-8 relative to the gradient scale for direct functionals, 1e-6 for iterative ones "
                "(their stopping tolerance is 1e-11)"]
 BUDGET = {"quick": {"worker_timeout": 900, "case_timeout": 180}, "thorough": {"worker_timeout": 3300, "case_timeout": 300}}
-REQUIRED_COUNTERS = {"quick": {"late_backward_compared": 30, "history_grad2_compared": 150, "abort_reuse_compared": 40, "refreeze_stages": 100, "second_order_compared": 1500, "objparams_substitutions": 5000},
-                     "thorough": {"late_backward_compared": 300, "history_grad2_compared": 1500, "abort_reuse_compared": 400, "refreeze_stages": 1000, "second_order_compared": 9000, "objparams_substitutions": 30000}}
+REQUIRED_COUNTERS = {"quick": {"repeat_backward_compared": 60, "extra_shared_object_compared": 20, "late_backward_compared": 30, "history_grad2_compared": 150, "abort_reuse_compared": 40, "refreeze_stages": 100, "second_order_compared": 1500, "objparams_substitutions": 5000},
+                     "thorough": {"repeat_backward_compared": 240, "extra_shared_object_compared": 200, "late_backward_compared": 300, "history_grad2_compared": 1500, "abort_reuse_compared": 400, "refreeze_stages": 1000, "second_order_compared": 9000, "objparams_substitutions": 30000}}
 
 FNAMES = list(funcs.FUNCTIONALS) + ["mcquad:mh"]
 
@@ -79,6 +79,10 @@ def cases(seed, tier):
     # histories: a sibling made once and reused after requires_grad flags changed; a failed call followed by a normal one
     from vf import c09_extra
     out.extend(c09_extra.cases(seed, tier))
+    # mcquad takes TWO functions: f and log p as methods of one object sharing a tensor (monitor of vf/c16_extra.py: explicit weighted mean on
+    # the same leaves)
+    from vf import c16_extra
+    out.extend(dict(d, group="mc_shared") for d in c16_extra.cases(seed, tier) if d.get("kind") == "shared_obj")
     return out
 
 
@@ -322,6 +326,18 @@ def run_meta(desc):
                 err = max(float((x - (a - b)).abs().max()) for x, a, b in zip(gc, ga, gb))
                 obs.check(err <= tol * max(1.0, max(float(x.abs().max()) for x in ga + gb)), "cot_cancel:" + mech,
                           "g(e_last - e_before_last) differs from g(e_last) - g(e_before_last) by %.3e (cotangent whose entries cancel exactly)" % err)
+            # (c') several backward passes through ONE graph (retain_graph): every pass gives what the first one gives
+            lvr = funcs.clone_leaves(lv0)
+            outs_r = forward(lvr)
+            Lr = sum((o * c_).sum() for o, c_ in zip(outs_r, C1))
+            leaves_r = [lvr[k] for k in funcs.LEAF_NAMES]
+            if isinstance(Lr, torch.Tensor) and Lr.requires_grad:
+                passes = [torch.autograd.grad(Lr, leaves_r, retain_graph=True, allow_unused=True) for _ in range(3)]
+                for kpass in (1, 2):
+                    err = max(float(((a if a is not None else torch.zeros_like(l)) - (b if b is not None else torch.zeros_like(l))).abs().max())
+                              for a, b, l in zip(passes[kpass], passes[0], leaves_r))
+                    obs.check(err <= 1e-12 * sc, "repeat_backward:" + mech, "backward pass number %d through the same graph differs from the first one by %.3e" % (kpass + 1, err))
+                obs.count("repeat_backward_compared")
             # (d) zero cotangent -> zero gradient
             gz = grad_for([torch.zeros_like(o) for o in outs0])
             obs.check(all(float(x.abs().max()) == 0.0 for x in gz), "cot_zero:" + mech, "a zero cotangent gives a non-zero gradient")
@@ -392,6 +408,9 @@ def run_case(desc):
     if desc.get("group") == "history":
         from vf import c09_extra
         return c09_extra.run_case(desc)
+    if desc.get("group") == "mc_shared":
+        from vf import c16_extra
+        return c16_extra.run_shared(desc)
     obs = Obs(desc)
     fname, rep, derived, d, s = desc["functional"], desc["rep"], desc["derived"], desc["d"], desc["s"]
     dtype = torch.float64
